@@ -452,6 +452,54 @@ static void part_single(void) {
 	}
 }
 
+/* a record that speaks about a calendar root (publication or calendar authentication record) in a signature without the calendar
+ * chain: nothing the record says can be compared with the signature, so it is not a consistent signature - neither entry point
+ * may report it OK (keep 1: publication record only, 2: authentication record only, 3: whatever the base has) */
+static void part_tail_without_calendar(void) {
+	static rs_params bases[64];
+	int nb = mut_bases(bases, 64), b, keep;
+	for (b = 0; b < nb; b++) for (keep = 1; keep <= 3; keep++) {
+		rsig s;
+		vbuf by;
+		unsigned char *ex;
+		KSI_Signature *sig = NULL;
+		int res;
+		if (!vf_case_begin("tail-without-calendar:base%d:keep%d", b, keep)) continue;
+		rs_build(&s, &bases[b]);
+		if (!s.has_cal || (keep == 1 && !s.has_pub) || (keep == 2 && !s.has_auth) || (keep == 3 && !(s.has_pub || s.has_auth))) { vf_outcome("mutation-not-applicable"); vf_case_end(0); continue; }
+		s.has_cal = 0;
+		if (keep == 1) s.has_auth = 0;
+		if (keep == 2) s.has_pub = 0;
+		vb_init(&by);
+		rs_serialize(&s, &by);
+		ex = ku_exact(by.p, by.n);
+		res = KSI_Signature_parse(ctx, ex, by.n, &sig);
+		vf_count("impl_calls", 1);
+		if (res == KSI_OK) vf_fail("inconsistent-parse-ok", "base %d: KSI_Signature_parse accepted a signature with %s and no calendar chain", b, s.has_pub ? "a publication record" : "a calendar authentication record");
+		KSI_Signature_free(sig); sig = NULL;
+		res = KSI_Signature_parseWithPolicy(ctx, ex, by.n, KSI_VERIFICATION_POLICY_EMPTY, NULL, &sig);
+		vf_count("impl_calls", 1);
+		if (res == KSI_OK && sig != NULL) {
+			KSI_VerificationContext vc;
+			KSI_PolicyVerificationResult *result = NULL;
+			int rc;
+			KSI_VerificationContext_init(&vc, ctx);
+			vc.signature = sig;
+			rc = KSI_SignatureVerifier_verify(KSI_VERIFICATION_POLICY_INTERNAL, &vc, &result);
+			vf_count("impl_calls", 1);
+			if (rc == KSI_OK && result != NULL && result->finalResult.resultCode == KSI_VER_RES_OK)
+				vf_fail("inconsistent-ok", "base %d: internal verification reports OK for a signature with %s and no calendar chain", b, s.has_pub ? "a publication record" : "a calendar authentication record");
+			vf_outcome("tail-without-calendar:parsed:%s", rc == KSI_OK && result ? "verdict-not-ok" : "error");
+			KSI_PolicyVerificationResult_free(result);
+			KSI_VerificationContext_clean(&vc);
+		} else vf_outcome("tail-without-calendar:refused");
+		KSI_Signature_free(sig);
+		free(ex);
+		vb_free(&by);
+		vf_case_end(1);
+	}
+}
+
 static void part_pairs(void) {
 	static rs_params bases[64];
 	int nb = mut_bases(bases, 64), b, m1, m2;
@@ -667,6 +715,7 @@ static void run(void) {
 	part_f2();
 	part_f1();
 	part_single();
+	part_tail_without_calendar();
 	part_pairs();
 	part_bytes();
 	part_builder();
